@@ -158,6 +158,8 @@ struct Scn
   std::atomic<int> inHandlers{0};
   uint64_t seed = 0;
   std::atomic<uint64_t> lateScheduleAttempts{0}, lateScheduleRefused{0}, subMsTimers{0};
+  uint64_t probeCallNs = 0;
+  std::atomic<uint64_t> probeFiredNs{0};
 };
 
 static Rec *newRec(Scn *S)
@@ -349,6 +351,15 @@ static bool runScenario(uint64_t seed, uint64_t idx, int which)
     }
     // quiescence: every one-shot deadline (<= 400 ms, + reschedules) has passed with slack
     vf::sleepMs(400 + 400 + 250);
+    // progress probe (wheel): TimingWheel::stop() discards whatever has not fired, so "due long ago and never fired"
+    // proves a drop only if the tick thread had really got that far. A probe scheduled now and seen firing shows that
+    // the wheel has processed every tick up to this instant (a lagging tick thread on a loaded machine just takes longer).
+    if (which == 0)
+    {
+      S->probeCallNs = vf::nowNs();
+      uint64_t pid = svc->schedule(1000, [S]() { S->probeFiredNs.store(vf::nowNs()); });
+      for (int i = 0; pid && i < 20000 && !S->probeFiredNs.load(); i++) vf::sleepMs(1);
+    }
   }
   // burst with (nearly) one common deadline landing around the shutdown call: the service collects the
   // whole burst in one pass, so stop()/drain() must wait for handlers that are collected but not yet started
@@ -418,6 +429,14 @@ static bool runScenario(uint64_t seed, uint64_t idx, int which)
     if (!r->periodic && r->fires.load() == 1 && r->entry[0].load() && r->lastExitNs.load() >= r->entry[0].load()) oneShotRuns.emplace_back(r->entry[0].load(), r->lastExitNs.load());
   }
   std::sort(oneShotRuns.begin(), oneShotRuns.end());
+  // latest deadline among the one-shot timers that fired before the shutdown call (progress evidence for the wheel)
+  uint64_t maxFiredDueNs = 0, nUnjudgedLagging = 0;
+  for (size_t i = 0; i < n; i++)
+  {
+    Rec *r = S->recs[i].get();
+    if (r->periodic || !r->id.load() || r->fires.load() != 1 || r->reschedRes.load() == 1) continue;
+    if (r->entry[0].load() && r->entry[0].load() < S->shutdownCallNs.load()) maxFiredDueNs = std::max(maxFiredDueNs, r->callNs.load() + r->delayNs); // LOWER bound of its real deadline
+  }
   uint64_t nValid = 0, nFired = 0, nCancelTrue = 0, nCancelFalse = 0, nReschedTrue = 0, nPeriodic = 0, nDiscarded = 0, nRefused = 0, cancelLostRace = 0;
   for (size_t i = 0; i < n; i++)
   {
@@ -510,8 +529,22 @@ static bool runScenario(uint64_t seed, uint64_t idx, int which)
     {
       uint64_t due = (rres == 1 ? r->reschedCallNs.load() + r->reschedDelayNs.load() : r->retNs.load() + r->delayNs);
       bool dueWellBeforeShutdown = due + 1000000000ull < S->shutdownCallNs.load();
+      if (which == 0 && dueWellBeforeShutdown)
+      {
+        // wheel: TimingWheel::stop() discards whatever has not fired, so "due > 1 s ago and never fired" proves a drop
+        // only if the tick thread was not simply lagging on a loaded machine. At a quiescent shutdown the probe scheduled
+        // 1 ms ahead must have fired within 500 ms (the thread is alive and up to date: everything overdue by a second
+        // would have been caught up with); at a racing shutdown (no probe) the margin is 3 s instead of 1 s.
+        // (A multi-level wheel may fire a timer of a higher level later than a younger level-0 timer, so "a later
+        // timer fired" is NOT evidence that this one's turn had come — tried and withdrawn, see DESIGN 6.4.)
+        bool responsive = S->probeFiredNs.load() && S->probeFiredNs.load() - S->probeCallNs < 500000000ull;
+        bool judged = (shutdownKind < 2) ? responsive : due + 3000000000ull < S->shutdownCallNs.load();
+        if (!judged) { nUnjudgedLagging++; dueWellBeforeShutdown = false; }
+      }
       if (dueWellBeforeShutdown)
-        O.viol("C08:" + N + ":timer-dropped", "valid timer neither fired nor was cancelled although its deadline passed > 1 s before stop/drain began", det(r, "\"x\":0"));
+        O.viol("C08:" + N + ":timer-dropped", "valid timer neither fired nor was cancelled although its deadline passed > 1 s before stop/drain began",
+               det(r, "\"due_before_shutdown_call_us\":" + std::to_string((int64_t(S->shutdownCallNs.load()) - int64_t(due)) / 1000) + ",\"latest_fired_deadline_after_this_due_us\":" + std::to_string((int64_t(maxFiredDueNs) - int64_t(due)) / 1000) +
+                          ",\"probe_fired\":" + std::to_string(S->probeFiredNs.load() ? 1 : 0) + ",\"schedule_call_took_us\":" + std::to_string((r->retNs.load() - r->callNs.load()) / 1000)));
       else nDiscarded++;
     }
     // (6) nothing after stop/drain returned
@@ -536,6 +569,7 @@ static bool runScenario(uint64_t seed, uint64_t idx, int which)
 
   O.obs("timers_with_sub_millisecond_delay", S->subMsTimers.load());
   if (which == 0) { auto *ws = static_cast<WheelSvc *>(svc); if (ws->dispatched.load()) { O.obs("wheel_scenarios_with_dispatcher"); O.obs("wheel_callbacks_through_dispatcher", ws->dispatched.load()); } }
+  if (which == 0) { if (S->probeFiredNs.load()) O.obs("wheel_progress_probe_fired"); if (nUnjudgedLagging) O.obs("wheel_unfired_timers_not_judged_tick_thread_lagging", nUnjudgedLagging); }
   O.obs("scenarios_" + N); O.obs("timers_valid", nValid); O.obs("timers_fired", nFired); O.obs("cancel_true", nCancelTrue); O.obs("cancel_false", nCancelFalse);
   O.obs("cancel_lost_race_to_fire", cancelLostRace); O.obs("reschedule_true", nReschedTrue); O.obs("periodic_timers", nPeriodic);
   O.obs("discarded_by_shutdown", nDiscarded); O.obs("refused_after_shutdown", nRefused); O.obs("late_schedule_refused", S->lateScheduleRefused.load());
